@@ -9,7 +9,7 @@ import ast
 from ..core import Report, Finding, AnalysisError
 from ..facts import Facts
 from ..pathwalk import show, is_const, C
-from ..clirules import CliModel, strip, pieces, contains, given, same_bytes, catches
+from ..clirules import CliModel, strip, pieces, contains, given, same_bytes, catches, same_file
 
 LEVEL = 'other'
 
@@ -26,6 +26,27 @@ def exit_arg_ok(exc):
     if is_const(a):
         return bool(a[1]) and a[1] is not True
     return True
+
+
+def zero_exit(exc):
+    """raise SystemExit() / SystemExit(None) / SystemExit(0): the process ends with status 0"""
+    if exc[0] not in ('call', 'new') or exc[1] != 'SystemExit' or exc[3]:
+        return False
+    if not exc[2]:
+        return True
+    a = strip(exc[2][0])
+    return len(exc[2]) == 1 and is_const(a) and (a[1] is None or (isinstance(a[1], int) and a[1] == 0))
+
+
+def in_handler(p):
+    """does the path end inside an exception handler (an `except` that was entered and not left)?"""
+    entered = []
+    for ev in p.events:
+        if ev[0] == 'except':
+            entered.append(ev[2])
+        elif ev[0] == 'swallowed' and ev[2] in entered:
+            entered.remove(ev[2])
+    return bool(entered)
 
 
 def lines_source(v, path):
@@ -91,12 +112,32 @@ def judge_line(elt, kvar, vvar, table, newline_added):
         return None, 'the text written for a label is built in a way the analysis does not model: {}'.format(show(elt)[:80])
     if newline_added:
         ps = ps + [('lit', '\n')]
+    for p_ in ps:
+        if p_[0] == 'val' and not contains(p_[1], kvar) and not (vvar is not None and contains(p_[1], vvar)) and not contains(p_[1], table):
+            return None, 'a label line contains text that is neither a literal nor derived from the label: {}'.format(show(p_[1])[:60])
     has_key = any(p[0] == 'val' and contains(p[1], kvar) and not (vvar is None and contains(p[1], ('sub', table, kvar))) for p in ps)
     if vvar is not None:
         has_val = any(p[0] == 'val' and contains(p[1], vvar) for p in ps)
     else:
         has_val = any(p[0] == 'val' and (contains(p[1], ('sub', table, kvar)) or
                                          any(t for t in [p[1]] if contains(t, ('mcall', table, 'get', (kvar,), ())))) for p in ps)
+    # the number written is the label's address itself (any notation), not something computed from it
+    def bare(v):
+        v = strip(v)
+        while v[0] == 'call' and v[1] in ('hex', 'str', 'int', 'repr', 'format', 'oct', 'bin') and v[2]:
+            v = strip(v[2][0])
+        return v
+    addr = vvar if vvar is not None else None
+    for p in ps:
+        if p[0] != 'val':
+            continue
+        b = bare(p[1])
+        is_addr = (addr is not None and b == addr) or (addr is None and (b == ('sub', table, kvar) or b == ('mcall', table, 'get', (kvar,), ())))
+        mentions_addr = (addr is not None and contains(b, addr)) or (addr is None and contains(b, ('sub', table, kvar)))
+        if mentions_addr and not is_addr:
+            if b[0] in ('bin', 'un'):
+                return False, 'the number written for a label is {} instead of the address assemble() computed for it'.format(show(b)[:60])
+            return None, 'the number written for a label ({}) is not followed back to its address'.format(show(b)[:60])
     lits = ''.join(p[1] for p in ps if p[0] == 'lit')
     terminated = bool(ps) and ps[-1][0] == 'lit' and ps[-1][1].endswith('\n')
     one_line = lits.count('\n') == 1
@@ -141,8 +182,12 @@ def run(repo, tier):
         ws = sorted([e for e in pe.of('OPEN') if truncating(e)] + [e for e in pe.of('WRITE') if not truncating(e.open)] + pe.of('HEX'), key=lambda e: e.idx)
         first_w = min([e.idx for e in ws], default=None)
         unknown_w = pe.of('WRITE?')
+        # an explicit `raise SystemExit(0)` / sys.exit() outside every handler is how a successful run may end
+        success_exit = p.end == 'raise' and zero_exit(p.events[-1][1]) and not in_handler(p)
         # ---- R17.1 no-clobber ------------------------------------------------------------------------------------
         for e in pe.of('FAIL', 'CONV'):
+            if success_exit and e.kind == 'FAIL' and e.idx == len(p.events) - 1:
+                continue
             if e.kind == 'CONV' and any(any(catches(ast.unparse(h.type) if h.type is not None else '*', {'ValueError'}) for h in t.handlers) for t in e.tries):
                 continue
             if first_w is not None and e.idx > first_w:
@@ -156,7 +201,7 @@ def run(repo, tier):
             ok = bool(asm) and asm[0].idx < e.idx
             rep.check(ok, 'R17.1.asm-first', 'assemble() completes before {} is written'.format(show(e.path)[:60] if e.kind == 'OPEN' else (show(e.open.path)[:60] if e.kind == 'WRITE' else 'the hex file')),
                       lambda e=e: Finding('R17.1.asm-first', 'cli_main', e.node, 'an output file is opened before the program has been assembled: a failing assembly clobbers it', line=e.node.lineno))
-        if ws and not any(e.idx > first_w for e in pe.of('FAIL')):
+        if ws and not any(e.idx > first_w for e in pe.of('FAIL') if not (success_exit and e.idx == len(p.events) - 1)):
             rep.ok('R17.1.no-clobber', 'no failing exit after the first write on any path')
         # ---- R17.5 failing exits -----------------------------------------------------------------------------------
         for e in pe.of('SWALLOWED'):
@@ -171,12 +216,34 @@ def run(repo, tier):
             if ('ASM' in kinds or 'CONV' in kinds) and not any(s.node is e.node for s in pe.of('SWALLOWED')):
                 rep.ok('R17.5.no-swallow', 'handler `except {}` ends in a failing exit'.format(e.handler))
                 rep.count('failure handlers analysed')
-        if p.end == 'raise':
+        if success_exit and not asm:
+            undecided.append('a path through cli_main exits with status 0 without having called assemble()')
+            continue
+        if p.end == 'raise' and not success_exit:
             exc = p.events[-1][1]
             txt = show(exc)
             rep.check(exit_arg_ok(exc), 'R17.5.status', 'failing exit {} has a non-zero status'.format(txt[:50]),
                       lambda p=p, txt=txt: Finding('R17.5.status', 'cli_main', p.events[-1][2], 'this exit reports success (status 0 / no message): {}'.format(txt[:60]),
                                                    line=p.events[-1][2].lineno), nontrivial=False)
+            continue
+        # ---- a failure handler that ends in `return <status>` ------------------------------------------------------------
+        handled = [e for e in pe.of('EXCEPT') if ('ASM' in inside.get(id(e.node), set()) or 'CONV' in inside.get(id(e.node), set()))]
+        if p.end == 'return' and handled and not asm:
+            rv = [e for e in p.events if e[0] == 'return']
+            val = strip(rv[-1][1]) if rv and rv[-1][1] is not None else C(None)
+            node_r = rv[-1][2] if rv else handled[-1].node
+            if is_const(val) and val[1] in (None, 0, False, ''):
+                rep.fail(Finding('R17.5.status', 'cli_main', node_r, 'the handler for a failed assembly returns {!r}: the run ends with exit status 0'.format(val[1]),
+                                 line=node_r.lineno), instance='failing path returns a non-zero status that reaches the process')
+            elif is_const(val):
+                lost = discarded_return_sites(facts)
+                rep.check(not lost, 'R17.5.status', 'failing path returns a non-zero status that reaches the process',
+                          lambda lost=lost, node_r=node_r, val=val: Finding('R17.5.status', 'cli_main', node_r,
+                                                                         'a failed assembly makes cli_main return {!r}, but the call at line {} discards the value: run that way '
+                                                                         '(python -m bronzebeard.asm) the process exits 0 after the error'.format(val[1], lost[0].lineno),
+                                                                         line=node_r.lineno))
+            else:
+                undecided.append('a failure handler returns {} (not a constant status)'.format(show(val)[:60]))
             continue
         # ---- successful paths --------------------------------------------------------------------------------------
         if pe.args is None or not asm:
@@ -192,6 +259,8 @@ def run(repo, tier):
         o_cmp, o_inc = model.option(pe, 'compress'), model.option(pe, 'include')
         opens = pe.of('OPEN')
         for e in opens:
+            e.path = same_file(e.path)
+        for e in opens:
             if e.path not in (o_out, o_lab):
                 undecided.append('a file other than the -o / -l paths is opened for writing: {}'.format(show(e.path)[:60]))
         if unknown_w:
@@ -205,7 +274,13 @@ def run(repo, tier):
             return es[last:]
         outs = final([e for e in opens if e.path == o_out])
         if not outs:
-            undecided.append('no recognised open() of the -o path on a successful path')
+            later = p.events[a.idx + 1:]
+            if not opens and not unknown_w and not any(contains(e_[1:-1], binary) for e_ in later):
+                # nothing is opened for writing and the value returned by assemble() is never looked at again
+                rep.fail(Finding('R17.2.exact', 'cli_main', a.node, 'there is a successful path on which the assembled program is dropped: no file is written',
+                                 line=a.node.lineno), instance='the -o handle receives the value returned by assemble(), once')
+            else:
+                undecided.append('no recognised open() of the -o path on a successful path')
         for e in outs:
             mode = e.mode
             if mode is None:
@@ -219,7 +294,9 @@ def run(repo, tier):
                 undecided.append('the -o file is written inside a loop (chunked writing is not modelled)')
                 continue
             verdicts = [same_bytes(w.args[0], binary) if (w.method == 'write' and len(w.args) == 1) else None for w in wr]
-            if len(wr) == 1 and verdicts[0] is True:
+            if not wr and handle_escapes(e, p):
+                undecided.append('the handle of the -o file is handed to something that is not followed')
+            elif len(wr) == 1 and verdicts[0] is True:
                 rep.ok('R17.2.exact', 'the -o handle receives the value returned by assemble(), once')
             elif len(wr) == 1 and verdicts[0] is None:
                 undecided.append('what is written to the -o file is not understood: {}'.format(show(wr[0].args[0])[:80] if wr[0].args else wr[0].method))
@@ -255,8 +332,9 @@ def run(repo, tier):
             hargs = list(h.pos)
             opened = [e for e in outs if e.idx < h.idx]
             closed = [e for e in opened if e.closed is not None and e.closed < h.idx]
-            rep.check(bool(opened) and len(closed) == len(opened), 'R17.4.hex-after-close', 'bin2hex runs after the binary file is written and closed',
-                      lambda h=h: Finding('R17.4.hex-after-close', 'cli_main', h.node, 'the hex file is produced before the binary file has been written and closed', line=h.node.lineno))
+            if outs:            # no recognised open() of the -o path: reported as not understood above
+                rep.check(bool(opened) and len(closed) == len(opened), 'R17.4.hex-after-close', 'bin2hex runs after the binary file is written and closed',
+                          lambda h=h: Finding('R17.4.hex-after-close', 'cli_main', h.node, 'the hex file is produced before the binary file has been written and closed', line=h.node.lineno))
             fin = hargs[0] if hargs else h.kw.get('fin')
             fout = hargs[1] if len(hargs) > 1 else h.kw.get('fout')
             off = hargs[2] if len(hargs) > 2 else h.kw.get('offset')
@@ -286,13 +364,31 @@ def run(repo, tier):
         # argument wiring
         if None in a.kw:
             raise AnalysisError('cli_main: assemble() is called with **{}: which keyword arguments it receives is not established'.format(show(a.kw[None])[:60]))
-        rep.check(a.kw.get('compress') == o_cmp, 'R17.5.wiring', '-c reaches assemble(compress=)',
-                  lambda: Finding('R17.5.wiring', 'cli_main', a.node, 'the -c option is not what assemble() receives as compress', line=a.node.lineno), nontrivial=False)
+        cmp_arg = a.kw.get('compress')
+        if cmp_arg is not None:
+            cmp_arg = strip(cmp_arg)
+            while cmp_arg[0] == 'call' and cmp_arg[1] == 'bool' and len(cmp_arg[2]) == 1 and not cmp_arg[3]:
+                cmp_arg = strip(cmp_arg[2][0])                   # bool(flag): the same decision
+        if cmp_arg is None or cmp_arg == o_cmp or is_const(cmp_arg) or (cmp_arg[0] == 'attr' and cmp_arg[1] == pe.args):
+            rep.check(cmp_arg == o_cmp, 'R17.5.wiring', '-c reaches assemble(compress=)',
+                      lambda: Finding('R17.5.wiring', 'cli_main', a.node, 'the -c option is not what assemble() receives as compress', line=a.node.lineno), nontrivial=False)
+        else:
+            undecided.append('what assemble() receives as compress= is not followed back to the -c option: {}'.format(show(cmp_arg)[:60]))
         inc = a.kw.get('include_dirs')
         loop_ran = any(e[0] == 'loop' and contains(e[1], o_inc) for e in p.events)
-        inc_ok = inc is not None and not is_const(strip(inc)) and (not loop_ran or contains(inc, o_inc))
-        rep.check(inc_ok, 'R17.5.wiring', '-i directories reach assemble(include_dirs=)',
-                  lambda: Finding('R17.5.wiring', 'cli_main', a.node, 'include directories are not passed to assemble()', line=a.node.lineno), nontrivial=False)
+        inc_s = strip(inc) if inc is not None else None
+        if inc is None or is_const(inc_s) or (inc_s[0] in ('list', 'tuple') and not any(contains(x, pe.args) for x in inc_s[1]) and loop_ran):
+            # nothing / a constant / a display that does not mention the options although -i directories were iterated
+            inc_ok = False
+        elif not loop_ran or contains(inc, o_inc):
+            inc_ok = True
+        else:
+            inc_ok = None
+        if inc_ok is None:
+            undecided.append('what assemble() receives as include_dirs= is not followed back to the -i option: {}'.format(show(inc)[:60]))
+        else:
+            rep.check(inc_ok, 'R17.5.wiring', '-i directories reach assemble(include_dirs=)',
+                      lambda: Finding('R17.5.wiring', 'cli_main', a.node, 'include directories are not passed to assemble()', line=a.node.lineno), nontrivial=False)
     rep.analysed['write events on paths'] = n_w
     rep.analysed['successful paths analysed'] = n_ok_paths
     if undecided and not rep.findings:
@@ -303,6 +399,20 @@ def run(repo, tier):
     return rep
 
 
+def handle_escapes(op, path):
+    """Is the handle of an open() handed to something between the open and its close (a call / constructor / method that is not
+    one of the recognised write / close events)?  Whatever is written there is not seen."""
+    end = op.closed if op.closed is not None else len(path.events)
+    for ev in path.events[op.idx + 1:end]:
+        if ev[0] == 'mcall' and ev[1] == op.handle:
+            continue                    # a method of the handle itself: write / close / flush ...
+        if ev[0] in ('value', 'expr') and isinstance(ev[1], tuple) and strip(ev[1])[:1] == ('mcall',) and strip(ev[1])[1] == op.handle:
+            continue
+        if contains(ev[1:-1], op.handle):
+            return True
+    return False
+
+
 def judge_labels(wr, op, table, path):
     """(True / False / None, why) for the writes on the -l handle."""
     end = op.closed if op.closed is not None else len(path.events)
@@ -310,6 +420,8 @@ def judge_labels(wr, op, table, path):
     if not wr:
         if any(e in path.events[op.idx:end] for e in empty_before):
             return True, ''            # the loop over the label table ran zero times: an empty table gives an empty file
+        if handle_escapes(op, path):
+            return None, 'the handle of the labels file is handed to something that is not followed'
         return False, 'nothing is written to the labels file'
     if len(wr) != 1:
         return None, 'the labels file is written by several statements (not modelled)'
@@ -367,6 +479,17 @@ def judge_labels(wr, op, table, path):
     return judge_line(src['elt'], kvar, vvar, table, newline_added)
 
 
+def discarded_return_sites(facts):
+    """Module-level calls of cli_main() whose result is thrown away (`if __name__ == '__main__': cli_main()`): a status that
+    cli_main *returns* never becomes the exit status there.  sys.exit(cli_main()) / raise SystemExit(cli_main()) keep it."""
+    out = []
+    for st in facts.tree.body:
+        for n in ast.walk(st) if not isinstance(st, (ast.FunctionDef, ast.ClassDef)) else []:
+            if isinstance(n, ast.Expr) and isinstance(n.value, ast.Call) and isinstance(n.value.func, ast.Name) and n.value.func.id == 'cli_main':
+                out.append(n)
+    return out
+
+
 def judge_hex_args(fin, fout, off, o_out, o_hex, args_value):
     if fin is None or fout is None or off is None:
         return None, 'bin2hex is not called with (input, output, offset)'
@@ -375,11 +498,17 @@ def judge_hex_args(fin, fout, off, o_out, o_hex, args_value):
         ps = pieces(v)
         return ps is not None and all(p[0] == 'lit' or (p[1][0] == 'attr' and p[1][1] == args_value) for p in ps)
     want_out = [('val', o_out), ('lit', '.hex')]
+    fin = same_file(fin)
+    fp = pieces(fout)
+    if fp is not None:
+        fout_pieces = [('val', same_file(x[1])) if x[0] == 'val' else x for x in fp]
+    else:
+        fout_pieces = None
     if fin != o_out:
         if understood_path(fin):
             return False, 'bin2hex reads {} instead of the -o file'.format(show(fin)[:60])
         return None, 'the input path of bin2hex is not understood: {}'.format(show(fin)[:60])
-    if pieces(fout) != want_out:
+    if fout_pieces != want_out:
         if understood_path(fout):
             return False, 'bin2hex writes {} instead of <output>.hex'.format(show(fout)[:60])
         return None, 'the output path of bin2hex is not understood: {}'.format(show(fout)[:60])
